@@ -121,8 +121,8 @@ func (c *cluster) genAction(rt *rapid.T, p *profile) vAct {
 	add("dlvto", gated && len(pend) > 0)
 	add("dlvfrom", gated && len(pend) > 0)
 	add("dlvamong", gated && len(pend) > 0 && len(up) >= 2)
-	add("poke", len(up) > 0)
-	add("elect", gated && len(up) > 0)
+	add("poke", len(up) > 0 && !c.blackbox)
+	add("elect", gated && len(up) > 0 && !c.blackbox)
 	add("sever", len(live) > 0)
 	add("severpair", len(up) >= 2)
 	add("cut", len(c.order) >= 2)
@@ -139,7 +139,7 @@ func (c *cluster) genAction(rt *rapid.T, p *profile) vAct {
 	add("crash", len(up) > 0)
 	add("stop", len(up) > 0)
 	add("restart", len(down) > 0)
-	add("gate", !gated)
+	add("gate", !gated && !c.blackbox)
 	add("free", gated)
 	add("hold", len(up) > 0 && len(c.holds) < 2)
 	add("unhold", len(c.holds) > 0)
@@ -268,7 +268,14 @@ func (c *cluster) genCfg(rt *rapid.T, target uint64) vAct {
 	if a.K > 1 {
 		a.K = 0
 	}
-	cfg := n.r.configs.Latest
+	var cfg Config
+	if c.blackbox {
+		if n.sh.info != nil {
+			cfg = n.sh.info.Configs.Latest
+		}
+	} else {
+		cfg = n.r.configs.Latest
+	}
 	var members, others []uint64
 	for _, id := range c.order {
 		if _, ok := cfg.Nodes[id]; ok {
